@@ -763,10 +763,21 @@ def search_failing(ctx, broken):
     """spec oracle against the implementation: every stored root must load back equal with equal behaviour"""
     import random
 
+    dictlike = ('entries', 'amps', 'pmap', 'mmap', 'cmap', 'over', 'integral', 'm')
+
     def strip(d):
+        """introspection without object identities, dict-like association lists in canonical order"""
         if isinstance(d, dict):
-            return {k: strip(v) for k, v in d.items() if k != 'oid'}
-        if isinstance(d, list):
+            out = {}
+            for k, v in d.items():
+                if k == 'oid':
+                    continue
+                v = strip(v)
+                if k in dictlike and isinstance(v, list):
+                    v = sorted(v, key=lambda kv: json.dumps(kv[0], sort_keys=True))
+                out[k] = v
+            return out
+        if isinstance(d, (list, tuple)):
             return [strip(e) for e in d]
         return d
     pinned = os.path.join(vlib.VERIF, 'corpus', PID, 'pinned_documents.json')
@@ -778,7 +789,7 @@ def search_failing(ctx, broken):
                     return case, obs, 'implementation crashed: %s' % obs.get('crash', 'hang')
                 if not obs['ok']:
                     return case, obs, 'a document written by the pinned code no longer loads: %s' % obs.get('why')
-                if strip(obs['loaded']) != strip(case['expect']) or not obs['iface_ok']:
+                if strip(json.loads(json.dumps(obs['loaded']))) != strip(case['expect']) or not obs['iface_ok']:
                     return case, obs, 'a document written by the pinned code loads to a different template'
     rng = random.Random(12345)
     for case in G.gen_cases(rng, 'quick', n_store=120, n_doc=0):
